@@ -10,7 +10,8 @@
 //! behaviour-idle point and before/after each harness op. Consecutive observations bracket one step.
 //! * C28: (i) every mesh member is in `all_peers()` with that topic and is not explicit; (ii) a peer that
 //!   was explicit, or had a negative score, or was backed off for the topic (monitor's own ledger of PRUNEs
-//!   sent/received with their durations on the frozen virtual clock; no slack counted) just before a step
+//!   received — stamped when the node processes them — and sent — stamped when the node queues them, read from
+//!   the cfg(libp2p_verif) send log — with their durations on the frozen virtual clock; no slack counted) just before a step
 //!   is not newly in that topic's mesh after it; (iii) a GRAFT processed while the mesh already had
 //!   mesh_n_high members does not add the peer.
 //! * C29: at every behaviour-idle point, (some live connection of p whose handler was last told JoinedMesh)
@@ -112,6 +113,13 @@ impl Mon {
     fn observe(&mut self, gsb: &G, cause: &str) {
         self.observations += 1;
         let now = gs::verif::clock::offset();
+        // PRUNEs the node queued during the step that just ended (cfg hook in send_message, stamped with the clock
+        // of that moment — the wire may see them much later): the backoff counts once this step is over
+        for (p, t, b, at) in gs::verif::sent::take_prunes() {
+            if let Some(b) = b {
+                self.pending_backoff.push((t.as_str().to_string(), p, at + Duration::from_secs(b)));
+            }
+        }
         let snap = Mon::snap(gsb);
         if let Some(prev) = self.prev.take() {
             for (t, members) in &snap.mesh {
@@ -323,16 +331,14 @@ fn run_case(rng: &mut Rng) -> Out {
     let mut seqno = 0u64;
     // drains what raw peers received: PRUNEs sent by the node start a backoff in the ledger
     let drain = |rig: &mut Rig, mon: &Rc<RefCell<Mon>>| {
-        let now = gs::verif::clock::offset();
+        let _now = gs::verif::clock::offset();
         for i in 1..rig.raw.len() {
             let pi = rig.peer(i);
             for rpc in rig.raw_recv(i, &p0) {
                 let mut mm = mon.borrow_mut();
                 for (t, b, _) in &rpc.prune {
-                    if let Some(b) = b {
-                        let e = mm.backoff.entry((t.clone(), pi)).or_insert(Duration::ZERO);
-                        *e = (*e).max(now + Duration::from_secs(*b));
-                    }
+                    // trail only: the ledger is fed from the node's send log (see `observe`), because a PRUNE can
+                    // reach the wire long after the node started the backoff
                     let who = mm.name(&pi);
                     mm.note(format!("  node -> {who}: PRUNE {t} backoff {b:?}"));
                 }
